@@ -38,3 +38,71 @@ def seqs(alphabet, maxlen, minlen=1):
 
 def rng(seed, salt=0):
     return np.random.RandomState((int(seed) * 1000003 + salt) % (2 ** 31 - 1))
+
+
+# ------------------------------------------------------------------------------------------------
+# modular call recording: a stub with exactly the signature of the real function (read from the real source on every run)
+
+def sig_stub(path, qualname, handler, module=None):
+    """Return a function whose parameter list is that of `qualname` in REPO/path (so CPython binds positional / keyword
+    arguments exactly as it would for the real callee) and that calls handler(bound: dict) -> result."""
+    import ast
+    from pyvc import cut
+    fd, _ = cut.get_source_function(os.path.join(REPO, path), qualname)
+    names = [a.arg for a in fd.args.posonlyargs + fd.args.args + fd.args.kwonlyargs]
+    if fd.args.vararg:
+        names.append(fd.args.vararg.arg)
+    if fd.args.kwarg:
+        names.append(fd.args.kwarg.arg)
+    src = 'def %s(%s):\n    return __handler(dict(%s))\n' % (fd.name, ast.unparse(fd.args), ', '.join('%s=%s' % (n, n) for n in names))
+    ns = dict(module.__dict__) if module is not None else {}
+    ns['__handler'] = handler
+    exec(compile(src, '<stub:%s>' % qualname, 'exec'), ns)
+    return ns[fd.name]
+
+
+def real_defaults(path, qualname, module):
+    """parameter -> default value of the real function (evaluated in the real module)"""
+    import ast
+    from pyvc import cut
+    fd, _ = cut.get_source_function(os.path.join(REPO, path), qualname)
+    args = fd.args.posonlyargs + fd.args.args
+    out = {}
+    defaults = fd.args.defaults
+    for a, d in zip(args[len(args) - len(defaults):], defaults):
+        out[a.arg] = eval(compile(ast.Expression(d), '<default>', 'eval'), dict(module.__dict__))
+    for a, d in zip(fd.args.kwonlyargs, fd.args.kw_defaults):
+        if d is not None:
+            out[a.arg] = eval(compile(ast.Expression(d), '<default>', 'eval'), dict(module.__dict__))
+    return out
+
+
+class PoolShim:
+    """ASSUMED multiprocessing.Pool contract (fork start method): starmap(f, args) == [f(*a) for a in args] in order;
+    which worker runs which job is arbitrary (modelled where a contract needs it, see C08)."""
+
+    def __init__(self, processes=None):
+        self.processes = processes
+        core.C().ghost.setdefault('pools', []).append(self)
+
+    def starmap(self, f, args):
+        return [f(*a) for a in args]
+
+    def close(self):
+        pass
+
+    def __enter__(self):
+        return self
+
+    def __exit__(self, *a):
+        return False
+
+
+class MPShim:
+    Pool = PoolShim
+
+    @staticmethod
+    def current_process():
+        class _P:
+            _identity = (1,)
+        return _P()
